@@ -165,6 +165,25 @@ class NinjaWriteBuild(Contract):
             each('ninja', S.input, at['order_only'].e, ' || '), T.lit('\n'))}
 
 
+class MakeWriteDefine(Contract):
+    """define NAME / one line per command (each written like a recipe line) / endef"""
+    target = 'bfg9000/backends/make/syntax.py::Makefile._write_define'
+    properties = ('C01',)
+
+    def params(self, cx, case):
+        buf0 = cx.ghost('buf0', z3.Const('buf0', T.Str))
+        return {'self': Obj(msyn.Makefile, {}), 'out': make_writer(buf0),
+                'name': Obj(msyn.Variable, {'name': cx.str('vname')}), 'value': PList([frags('line0'), frags('line1')])}
+
+    def ensures(self, a, r):
+        S = msyn.Syntax
+        parts = [T.lit('define '), M.sym_str(a.name.attrs['name']), T.lit('\n')]
+        for line in a.value.items:
+            parts += [each('make', S.shell, line.e), T.lit('\n')]
+        parts.append(T.lit('endef\n\n'))
+        return {'define_block': written(a) == z3.Concat(*parts)}
+
+
 class MakeWriteFile(Contract):
     """Makefile.write, the include statements at the end of the file: `[-]include ` + the file in TARGET syntax (make
     reads the word like a target: blanks, `#`, `%`... need the target-side escapes), one statement per line.  The other
@@ -193,9 +212,55 @@ class MakeWriteFile(Contract):
         return {'include_statements_in_target_syntax': z3.And(n >= k, z3.Extract(text, n - k, k) == tail)}
 
 
+class NinjaWriteRule(Contract):
+    """rule NAME / indented bindings: command (shell syntax), then depfile, deps, description (clean syntax),
+    generator, pool, restat -- each only when set."""
+    target = 'bfg9000/backends/ninja/syntax.py::NinjaFile._write_rule'
+    properties = ('C02',)
+
+    def cases(self):
+        return ['command-only', 'all-bindings']
+
+    def params(self, cx, case):
+        buf0 = cx.ghost('buf0', z3.Const('buf0', T.Str))
+        full = case == 'all-bindings'
+        rule = Obj(nsyn.Rule, {'command': frags('command'), 'depfile': frags('depfile') if full else None,
+                               'deps': frags('deps') if full else None,
+                               'description': frags('description') if full else None,
+                               'generator': full, 'pool': frags('pool') if full else None, 'restat': full})
+        return {'self': Obj(nsyn.NinjaFile, {}), 'out': ninja_writer(buf0), 'name': cx.str('rname'), 'rule': rule}
+
+    def requires(self, a):
+        # optional bindings given as lists are "set" when non-empty
+        at = a.rule.attrs
+        return z3.And(*[z3.Length(at[k].e) > 0 for k in ('depfile', 'deps', 'description', 'pool') if at[k] is not None] +
+                      [z3.BoolVal(True)])
+
+    def ensures(self, a, r):
+        S = nsyn.Syntax
+        at = a.rule.attrs
+
+        def binding(name, value, syntax=S.shell):
+            return [T.lit('  ' + name + ' = '), value, T.lit('\n')]
+        parts = [T.lit('rule '), M.sym_str(a.name), T.lit('\n')] + binding('command', each('ninja', S.shell, at['command'].e))
+        if at['depfile'] is not None:
+            parts += binding('depfile', each('ninja', S.shell, at['depfile'].e))
+        if at['deps'] is not None:
+            parts += binding('deps', each('ninja', S.shell, at['deps'].e))
+        if at['description'] is not None:
+            parts += binding('description', each('ninja', S.clean, at['description'].e))
+        if at['generator']:
+            parts += binding('generator', T.lit('1'))
+        if at['pool'] is not None:
+            parts += binding('pool', each('ninja', S.shell, at['pool'].e))
+        if at['restat']:
+            parts += binding('restat', T.lit('1'))
+        return {'rule_block': written(a) == z3.Concat(*parts)}
+
+
 def make_registry():
-    return [MakeWriteVariable(), MakeWriteRule(), MakeWriteFile()]
+    return [MakeWriteVariable(), MakeWriteRule(), MakeWriteDefine(), MakeWriteFile()]
 
 
 def ninja_registry():
-    return [NinjaWriteVariable(), NinjaWriteBuild()]
+    return [NinjaWriteVariable(), NinjaWriteBuild(), NinjaWriteRule()]
